@@ -162,6 +162,12 @@ func (s msgServer) RemoveFromCustodians(goCtx context.Context, msg *types.MsgRem
 
 func (s msgServer) ApproveTransaction(goCtx context.Context, msg *types.MsgApproveCustodyTransaction) (*types.MsgApproveCustodyTransactionResponse, error) {
 	ctx := sdk.UnwrapSDKContext(goCtx)
+	custodians := s.keeper.GetCustodyCustodiansByAddress(ctx, msg.TargetAddress)
+
+	if custodians == nil || !custodians.Addresses[msg.FromAddress.String()] {
+		return nil, errors.Wrap(types.ErrNotCustodian, msg.FromAddress.String())
+	}
+
 	vote := s.keeper.GetApproveCustody(ctx, msg)
 
 	if vote != "0" {
@@ -172,7 +178,6 @@ func (s msgServer) ApproveTransaction(goCtx context.Context, msg *types.MsgAppro
 	allowCustodians := true
 	allowPassword := true
 	settings := s.keeper.GetCustodyInfoByAddress(ctx, msg.TargetAddress)
-	custodians := s.keeper.GetCustodyCustodiansByAddress(ctx, msg.TargetAddress)
 
 	record := types.CustodyPool{
 		Address:      msg.TargetAddress,
@@ -256,6 +261,12 @@ func (s msgServer) ApproveTransaction(goCtx context.Context, msg *types.MsgAppro
 
 func (s msgServer) DeclineTransaction(goCtx context.Context, msg *types.MsgDeclineCustodyTransaction) (*types.MsgDeclineCustodyTransactionResponse, error) {
 	ctx := sdk.UnwrapSDKContext(goCtx)
+	custodians := s.keeper.GetCustodyCustodiansByAddress(ctx, msg.TargetAddress)
+
+	if custodians == nil || !custodians.Addresses[msg.FromAddress.String()] {
+		return nil, errors.Wrap(types.ErrNotCustodian, msg.FromAddress.String())
+	}
+
 	vote := s.keeper.GetDeclineCustody(ctx, msg)
 	hash := strings.ToLower(msg.Hash)
 
@@ -264,7 +275,6 @@ func (s msgServer) DeclineTransaction(goCtx context.Context, msg *types.MsgDecli
 	}
 
 	settings := s.keeper.GetCustodyInfoByAddress(ctx, msg.TargetAddress)
-	custodians := s.keeper.GetCustodyCustodiansByAddress(ctx, msg.TargetAddress)
 	transactions := s.keeper.GetCustodyPoolByAddress(ctx, msg.TargetAddress)
 
 	if settings == nil || !settings.CustodyEnabled || len(custodians.Addresses) == 0 {
